@@ -46,7 +46,7 @@ def tokensFromShares (stakerShare totalShare : Dec) (totalAmount : Int) : Except
   if Dec.gt stakerShare totalShare then .error "ErrInsufficientShares"
   else if Dec.isZero totalShare then
     if totalAmount == 0 then .ok 0 else .error "ErrDivisorIsZero"
-  else .ok (Dec.truncateInt (Dec.quo (Dec.mulInt stakerShare totalAmount) totalShare))
+  else .ok (Dec.truncateInt (Dec.quoTruncate (Dec.mulInt stakerShare totalAmount) totalShare))
 
 /-- usd_value.go: CalculateUSDValueForOperator with isForSlash=false: the closure run by
 IterateAssetsForOperator over the operator's assets in store order, skipping assets outside the
